@@ -48,7 +48,8 @@ theorem left6_nl : ∀ (items : List (Nat × Raw5)) (trail : Nat),
 
 /-- the block phase on a stage-6 document -/
 theorem runT_doc6 (items : List (Nat × Raw5)) (trail : Nat) (hgood : ∀ it ∈ items, Good5 it.2)
-    (hseps : SepsOK6 none items) (hno : ∀ it ∈ items, ∀ l ∈ lines5 it.2, ∀ c ∈ l, c ≠ 10) :
+    (hseps : SepsOK6 none items) (hic : IcOK6 false items)
+    (hno : ∀ it ∈ items, ∀ l ∈ lines5 it.2, ∀ c ∈ l, c ≠ 10) :
     ∃ s' bs, runT pts (rawDoc6 items trail) = .ok s' ∧ bs.length = items.length ∧
       s'.nodes = addKids { kind := .document } 0 items.length ::
         mkNodes5 (closedOf6 0 items) (items.map (·.2)) bs ∧ s'.pc.refs = [] := by
@@ -61,7 +62,8 @@ theorem runT_doc6 (items : List (Nat × Raw5)) (trail : Nat) (hgood : ∀ it ∈
     omega
   obtain ⟨s', bs, h1, h2, h3, h4⟩ :=
     (claim6_all (src := rawDoc6 items trail) items).1 trail 0 0 (linesFuel (rawDoc6 items trail)) []
-      { kind := .document } [] ({ } : Ctx) hd hgood hseps hf rfl
+      { kind := .document } [] ({ } : Ctx) hd hgood hseps hic hf rfl
+  rw [mkNodes5L_node5] at h3
   refine ⟨s', bs, ?_, h2, by simpa using h3, h4⟩
   unfold runT parseBlocksT
   simp only [bind_apply, modPc_run, source_run, initSt, reader_new, rdr_source]
@@ -111,10 +113,10 @@ theorem closedOf6_length : ∀ (items : List (Nat × Raw5)) (q : Nat), (closedOf
 /-- the model of `goldmark.Convert` on the source of a stage-6 document of good blocks -/
 theorem convert_raw6_any (o : GM.Convert.ROpts) (ho : o.hardWraps = false) (hxo : o.xhtml = true)
     (uc : List (Nat × (Bool × Bool))) (items : List (Nat × Raw5)) (trail : Nat)
-    (hgood : ∀ it ∈ items, Good5' it.2) (hseps : SepsOK6 none items) :
+    (hgood : ∀ it ∈ items, Good5' it.2) (hseps : SepsOK6 none items) (hic : IcOK6 false items) :
     GM.Convert.convertCore uc o (rawDoc6 items trail) = .ok (hdocHtml (items.map (·.2))) := by
   have hno : ∀ it ∈ items, ∀ l ∈ lines5 it.2, ∀ c ∈ l, c ≠ 10 := fun it hit => lines5_no_nl it.2 (hgood it hit)
-  obtain ⟨s', bs, h1, h2, h3, h4⟩ := runT_doc6 items trail (fun it hit => good5_of it.2 (hgood it hit)) hseps hno
+  obtain ⟨s', bs, h1, h2, h3, h4⟩ := runT_doc6 items trail (fun it hit => good5_of it.2 (hgood it hit)) hseps hic hno
   have hd := docAt6_raw items trail [] hno
   simp only [List.nil_append, List.length_nil] at hd
   have hall := allAt_closed items trail 0 hd hgood
@@ -155,9 +157,18 @@ theorem convert_raw6_any (o : GM.Convert.ROpts) (ho : o.hardWraps = false) (hxo 
   simpa [hit0] using this
 
 theorem convert_raw6 (uc : List (Nat × (Bool × Bool))) (items : List (Nat × Raw5)) (trail : Nat)
-    (hgood : ∀ it ∈ items, Good5' it.2) (hseps : SepsOK6 none items) :
+    (hgood : ∀ it ∈ items, Good5' it.2) (hseps : SepsOK6 none items) (hic : IcOK6 false items) :
     GM.Convert.convertCore uc cmOpts (rawDoc6 items trail) = .ok (hdocHtml (items.map (·.2))) :=
-  convert_raw6_any cmOpts rfl rfl uc items trail hgood hseps
+  convert_raw6_any cmOpts rfl rfl uc items trail hgood hseps hic
+
+/-- **stage 12**: the model of `goldmark.Convert` on the source of a document of paragraphs, ATX headings, thematic
+    breaks, fenced code blocks and INDENTED CODE BLOCKS (`Raw5.icode`), blocks abutting where CommonMark allows (an
+    indented code block needs a blank line behind a paragraph: `AbutOK5`) and no indented code block behind an indented
+    code block (`IcOK6`): exactly the prescribed HTML `hdocHtml` -/
+theorem convert_raw12 (uc : List (Nat × (Bool × Bool))) (items : List (Nat × Raw5)) (trail : Nat)
+    (hgood : ∀ it ∈ items, Good5' it.2) (hseps : SepsOK6 none items) (hic : IcOK6 false items) :
+    GM.Convert.convertCore uc cmOpts (rawDoc6 items trail) = .ok (hdocHtml (items.map (·.2))) :=
+  convert_raw6 uc items trail hgood hseps hic
 
 /-! ### stage-6 fragment documents -/
 
@@ -236,7 +247,12 @@ theorem fragment6_conforms_any (o : GM.Convert.ROpts) (ho : o.hardWraps = false)
     intro x hx
     obtain ⟨it, hit, rfl⟩ := List.mem_map.mp hx
     exact good5_rawOfH it.block (hok it hit)
+  have hnoic : ∀ it ∈ d.items.map convK, isIcB it.2 = false := by
+    intro x hx
+    obtain ⟨it, hit, rfl⟩ := List.mem_map.mp hx
+    exact isIcB_rawOfH it.block
   have hc := convert_raw6_any o ho hxo uc (d.items.map convK) d.trail hgood (sepsOK_of none d.items hseps)
+    (icOK6_of_none _ false hnoic)
   rw [spellK_raw, hc]
   have he : expectedK d = hdocHtml ((d.items.map (·.block)).map rawOfH) := by
     rw [hdocHtml_spelled _ (by
